@@ -33,6 +33,28 @@ pub fn values(c: Class, w: usize) -> Vec<Vec<u8>> {
     v.push(hi);
     v.push(vec![0xff; w]);
     v.push((0..w).map(|j| crate::util::fill(3, j)).collect());
+    // powers of two and of ten with their neighbours (thresholds of hand-written range checks), truncated to the width
+    if matches!(c, Class::Unsigned | Class::Signed | Class::DurS | Class::DurMs | Class::DurUs | Class::DurNs) && w <= 8 {
+        let mut extra: Vec<u64> = vec![];
+        for k in [7u32, 8, 15, 16, 24, 31, 32, 53, 63] {
+            if (k as usize) < w * 8 {
+                let p = 1u64 << k;
+                extra.extend([p - 1, p, p + 1]);
+            }
+        }
+        let mut t = 10u64;
+        while t < u64::MAX / 10 {
+            extra.extend([t - 1, t, t + 1]);
+            t *= 10;
+        }
+        extra.extend([30, 31, 255, 256, 65535, 65536, 86_400, 86_400_000, 999_999_999, 1_000_000_000, 4_294_967, 4_294_968]);
+        let max = if w == 8 { u64::MAX } else { (1u64 << (w * 8)) - 1 };
+        for x in extra {
+            if x <= max {
+                v.push(x.to_be_bytes()[8 - w..].to_vec());
+            }
+        }
+    }
     match c {
         Class::Proto => {
             v = (0..=255u8).map(|x| vec![x]).collect();
